@@ -48,10 +48,7 @@ def run(ctx):
            'VerifyResult{epoch,version,value} are the checked proof fields' if good else
            'returned VerifyResult fields are not proof.{epoch,version,value}: %s' % [show(e) for _, e in oks])
     # RF-COVER: every LookupProof field is an argument of a checked call or guard
-    lv = set()
-    for g in b.guards():
-        if g['fail']:
-            lv |= leaves(g['cond'])
+    lv = guard_leaves(b)
     adt = [a for a in prog.adts_by_name.get('LookupProof', []) if a['path'].startswith('akd_core::types')]
     declared = [f['n'] for a in adt for v in a['variants'] for f in v['fields']]
     ctx.ob('C06.COVER.decl', 'RF-COVER', sorted(declared) == sorted(FIELDS), 'akd_core::types::LookupProof', None,
